@@ -46,7 +46,7 @@ HARNESS = dict(name="hashtable", flavour="asan",
 # iteration order, slot layout and growth points are conformance (W); the reference-dict oracle below checks every P line
 # (results, contents, counts, destructor multisets, visit-exactly-once) and alone decides what is a concrete violation
 P_DIFF_CONCRETE = False
-TIMEOUT = 900
+TIMEOUT = int(os.environ.get("C02_TIMEOUT", "900"))   # per-stream watchdog (seconds)
 TRUSTED = ["hand model lean/AwsVerif/Model/Lookup3.lean (byte-wise hashlittle2 + interpreter of the extracted path tables; tied by the "
            "W streams `hl2` / `hl2s` at all four alignments with varying bytes behind the key)",
            "props/c02_gen.py lookup3_paths(): extraction of the three hashlittle2 paths (non-VALGRIND branch, and the -DVALGRIND tail of "
@@ -140,6 +140,11 @@ def gen_case(rng, maxops):
             r = r * 0.45
         if r < 0.38:
             ops.append(f"put {t} {_key(rng, nid)} {val()}")
+        elif r < 0.40:
+            ops.append(f"putn {t} {_key(rng, nid)} {val()}")
+        elif r < 0.42:
+            ops.append(rng.choice([f"createn {t} {_key(rng, nid)} {rng.choice(['e', 'c', '-'])}",
+                                   f"removen {t} {_key(rng, nid)} {rng.choice(['out', 'noout'])}"]))
         elif r < 0.43:
             ops.append(f"create {t} {_key(rng, nid)}")
         elif r < 0.53:
@@ -206,6 +211,8 @@ def gen_eq_case(rng):
         b.pop()
     elif r < 0.6:
         b.append((f"k{nid + 1}", "v1"))
+    elif r < 0.8 and b:
+        b[rng.randrange(len(b))] = (f"k{nid + 2}", "v1")      # same count, one key replaced by a key a does not have
     for k, v in a:
         ops.append(f"put t0 {k}.p0 {v}")
     for k, v in b:
@@ -580,6 +587,9 @@ def oracle(case, lines):
         if tab is None:
             expect("P nil", op)
             continue
+        if o in ("putn", "createn", "removen"):
+            _nullout_oracle(op, tk, t, tab, stale, expect)
+            continue
         if o == "put":
             k, v = tk[2], tk[3]
             i = _ident(k)
@@ -672,6 +682,37 @@ def oracle(case, lines):
                 errs.append("harness assertion: " + P[pos[0]])
             pos[0] += 1
     return errs
+
+
+def _nullout_oracle(op, tk, t, tab, stale, expect):
+    """put / create / remove with their optional out-parameters NULL: same map semantics, same destructor rules"""
+    o = tk[0]
+    i = _ident(tk[2])
+    old = tab.d.get(i)
+    stale(t)
+    if o == "putn":
+        k, v = tk[2], tk[3]
+        log = []
+        if old is not None:
+            if old[0] != k and tab.dk:
+                log.append("k:" + old[0])
+            if tab.dv:
+                log.append("v:" + old[1])
+        tab.d[i] = (k, v)
+        expect("P putn OK", op) and expect(_dline(log), op) and expect(_contents_line(t, tab), op)
+    elif o == "createn":
+        if old is None:
+            tab.d[i] = (tk[2], "vnull")
+        kk, vv = tab.d[i]
+        cr = str(int(old is None)) if tk[3] == "c" else "?"
+        el = f"{kk}={vv}" if tk[3] == "e" else "-"
+        expect(f"P createn OK created={cr} {el}", op) and expect(_contents_line(t, tab), op)
+    else:
+        e = tab.d.pop(i, None)
+        want = tk[3] == "out"
+        shown = f"{e[0]}={e[1]}" if (e and want and e != ("knull", "vnull")) else "-"
+        log = tab.dlog(*e) if (e and not want) else []
+        expect("P removen " + shown, op) and expect(_dline(log), op) and expect(_contents_line(t, tab), op)
 
 
 def _canon(kind, tok):
